@@ -82,6 +82,8 @@ def run(rep, tier):
     rep.rule("R1", "dump_code2/dump_code3 emit the field sequence and widths of the code-object layout of every version the accepted class serves")
     rep.rule("R2", "write_bytecode_file writes the header layout load_module reads for the same magic (magic bytes, PEP 552 flag word, timestamp, source size)")
     rep.rule("R3", "each portable class is dispatched to a writer that emits its layout, or raises; classes whose fields the writer never emits are refused")
+    rep.rule("R6", "a Python 2 code object is written with all identifier fields (names, varnames, freevars, cellvars, filename, name) as TYPE_STRING")
+    rep.rule("R7", "for a Python 2 target a plain str constant is written as TYPE_STRING and an integer that fits 32 bits as TYPE_INT (Python 2 distinguishes str/unicode and int/long)")
     rep.rule("R5", "the reading half of the round trip: every obligation of the unmarshaller (C01 rules: per-type layouts and kinds, unpack formats, "
                    "reference table, t_code field sequence and bindings, bytes-vs-text, fields kept by the portable classes) holds")
     rep.rule("R4", "dumps() converts str chunks byte-for-byte (one byte per char) and passes bytes chunks through unchanged")
@@ -233,6 +235,38 @@ def run(rep, tier):
                     passthrough = True
     rep.ob("R4", d.qualname, "str-chunks-one-byte-per-char", byte_per_char, expected="bytes(ord(c) for c in chunk)", derived=byte_per_char)
     rep.ob("R4", d.qualname, "bytes-chunks-unchanged-in-order", passthrough and joined, expected="buf.append(b); b''.join(buf)", derived=[passthrough, joined])
+    # ---------------------------------------------------------------- R6 / R7 Python 2 targets: text and integer kinds
+    from .c14 import writer_trace
+    Mcls = F.modules["xdis.marsh"].ns.get("_Marshaller")
+    inst2, C2 = instance_of(F, "Code2")
+    tr, _, _ = writer_trace(T, Mcls, "dump_code2", inst2, pyver=(2, 7))
+    IDENT = ("co_names", "co_varnames", "co_freevars", "co_cellvars", "co_filename", "co_name")
+    generic = []
+    for kind, arg, g in tr:
+        if kind == "dump" and isinstance(arg, Sym) and arg.name.startswith("x.") and arg.name[2:] in IDENT:
+            generic.append(arg.name[2:])
+    dc2 = Mcls.lookup("dump_code2")
+    rep.ob("R6", dc2.qualname, "py2-identifier-fields-are-strings", not generic, expected="names, varnames, freevars, cellvars, filename, name written with dump_string (TYPE_STRING)",
+           derived=generic or "all through dump_string", where="xdis/marsh.py:%d" % dc2.node.lineno,
+           msg="%s of a Python 2 code object go(es) through the generic dump(), which writes a host str as TYPE_UNICODE: Python 2 refuses such a code object "
+               "('non-string found in code slot' aborts 2.7)" % ", ".join(generic))
+    # what a Python 2 target needs for the two constant kinds that Python 3 merged: text (str vs unicode) and integers (int vs long)
+    for tn, meth_want in (("str", "TYPE_STRING ('s') for a plain str constant"), ("int", "TYPE_INT ('i') for an integer that fits 32 bits")):
+        disp = Mcls.ns.get("dispatch", {})
+        wr = None
+        for k_, f_ in disp.items():
+            if getattr(k_, "__name__", None) == tn and isinstance(f_, FuncRef):
+                wr = f_
+        if wr is None:
+            rep.ob("R7", "xdis.marsh._Marshaller.dispatch", "py2-target:%s" % tn, False, expected="a writer", derived="none registered")
+            continue
+        tr, _, _ = writer_trace(T, Mcls, wr.name, Sym("v", "str" if tn == "str" else "int"), pyver=(2, 7))
+        first = [a for kind, a, g in tr if kind == "write"][:1]
+        code_ = first[0][1] if first and first[0][0] in ("ascii", "bytes-literal") else (show(first[0]) if first else None)
+        okk = code_ in (("s", "t") if tn == "str" else ("i",))
+        rep.ob("R7", wr.qualname, "py2-target:%s-type-code" % tn, okk, expected=meth_want, derived=code_,
+               msg="written for a Python 2 target, a %s constant gets type code %r: Python 2 loads %s, so the rewritten file is a different program" % (
+                   tn, code_, "a unicode object (u'...')" if tn == "str" else "a long (5L)"))
     # ---------------------------------------------------------------- R5 the reader (shared engine with C01 / C10)
     from ..report import SubReport, merge_sub
     from . import c01
